@@ -275,9 +275,10 @@ def source_rules(rep, stats, samples):
             v = variants(a["body"])
             if v:
                 found = True
-                if not {"Size", "Count"} <= set(v):
+                if set(v) != {"Size", "Count"}:
                     rep.add("C16|siblings|array-delimiters|annotate_field", f"annotate_field's unsized-array arm tests {v}: an array "
-                            f"is dynamic iff a Size or a Count field designates it", AN)
+                            f"is dynamic iff a Size or a Count field designates it (exactly these two; analyzer::array_size and "
+                            f"Decl::array_size are the sibling predicates)", AN)
         if not found:
             rep.undecided.append("annotate_field: unsized array arm not recognised")
         # optional fields are Dynamic (first arm guard)
